@@ -203,11 +203,8 @@ Sfx(g) == IF g.dup THEN "-dup-id-rows" ELSE ""
 Viol(o, g) ==
   LET H == DOMAIN o.hosts
       W == DOMAIN g.want
-      \* a host whose by-address entry is missing is reported for that; what follows from
-      \* it (events by address cannot reach the host) is not reported a second time
-      Tainted == {i \in H : o.hosts[i] \notin DOMAIN o.byAddr}
-      Must == {i \in W \cap H : g.att[i] = "must" /\ o.hosts[i] \in g.want[i]} \ Tainted
-      MustNot == {i \in W \cap H : g.att[i] = "mustnot" /\ o.hosts[i] \in g.want[i]} \ Tainted
+      Must == {i \in W \cap H : g.att[i] = "must" /\ o.hosts[i] \in g.want[i]}
+      MustNot == {i \in W \cap H : g.att[i] = "mustnot" /\ o.hosts[i] \in g.want[i]}
       Others(i) == {j \in H \ {i} : o.hosts[j] = o.hosts[i]}
   IN
   {"ring-missing-host" \o Sfx(g) : i \in W \ H}
@@ -264,12 +261,12 @@ MovedAddrs(gOld, gNew) ==
 RefreshOK(fail) == g.ctl /\ fail = "none"
 
 \* the refresh both sides perform when one is due
-DoRefreshG(gg, rows) == LET g1 == GhostRefresh(gg, rows, Filt) IN [g1 EXCEPT !.moved = @ \cup MovedAddrs(gg, g1)]
+DoRefreshG(gg, rows, filt) == LET g1 == GhostRefresh(gg, rows, filt) IN [g1 EXCEPT !.moved = @ \cup MovedAddrs(gg, g1)]
 
 Refresh(rows, fail) ==
   /\ truth' = rows
   /\ IF RefreshOK(fail)
-       THEN /\ g' = DoRefreshG(g, rows)
+       THEN /\ g' = DoRefreshG(g, rows, Filt)
             /\ d' = ApplyRefresh(d, rows, Filt, g.reach)
        ELSE UNCHANGED <<g, d>>
   /\ nref' = IF g.ctl /\ fail # "local" THEN 1 ELSE 0
@@ -280,7 +277,7 @@ Events(rows, evs) ==
   /\ LET g1 == GhostStatuses(g, evs, StatusAddrs(evs))
          d1 == ApplyStatuses(d, evs, StatusAddrs(evs), g.reach)
          r == BatchNeedsRefresh(d, evs)
-     IN /\ g' = IF GhostNeedsRefresh(g, evs) \/ r THEN DoRefreshG(g1, rows) ELSE g1
+     IN /\ g' = IF GhostNeedsRefresh(g, evs) \/ r THEN DoRefreshG(g1, rows, Filt) ELSE g1
         /\ d' = IF r THEN ApplyRefresh(d1, rows, Filt, g.reach) ELSE d1
         /\ nref' = IF r THEN 1 ELSE 0
 
@@ -298,7 +295,7 @@ NodeRecover(rows, a) ==
        THEN \* the control connection comes back: control node connected, ring refreshed
             LET g1 == GhostControlBack([g EXCEPT !.reach = @ \cup {a}])
                 d1 == StartFill(d, C0id, g.reach \cup {a})
-            IN /\ g' = DoRefreshG(g1, rows)
+            IN /\ g' = DoRefreshG(g1, rows, Filt)
                /\ d' = ApplyRefresh(d1, rows, Filt, g.reach \cup {a})
                /\ nref' = 1
        ELSE /\ g' = [g EXCEPT !.reach = @ \cup {a}]
@@ -309,7 +306,7 @@ NodeRecover(rows, a) ==
 ControlLost(rows) ==
   /\ g.ctl
   /\ truth' = rows
-  /\ g' = DoRefreshG(GhostControlBack(g), rows)
+  /\ g' = DoRefreshG(GhostControlBack(g), rows, Filt)
   /\ d' = ApplyRefresh(StartFill(d, C0id, g.reach), rows, Filt, g.reach)
   /\ nref' = 1
 
